@@ -38,6 +38,12 @@ def explore(ctx):
             v.update(property="C08", replay_fn="files_idempotence")
         res["violations"] += f["violations"]
         res["coverage"]["file_store_settled_rebuilds"] = f["coverage"].get("file_store_idempotence_cases", f["coverage"].get("files_idempotence_cases", 0))
+    if not res["violations"]:
+        # calls that work through side effects and are tied by add_dependency only (harness/c08_effects.py)
+        from harness import c08_effects
+        f = c08_effects.side_effect_cases(ctx)
+        res["violations"] += f["violations"]
+        res["coverage"].update(f["coverage"])
     return res
 
 
@@ -55,6 +61,9 @@ def search(ctx, broken):
             found += ce.explore_cache(c, PROPS, 400, steps=7, stress=True)["violations"]
         if found:
             break
+    if not found:
+        from harness import c08_effects
+        found += c08_effects.side_effect_cases(ctx)["violations"]
     return found
 
 
@@ -63,6 +72,10 @@ def replay(ctx, payload):
     if w.get("replay_fn") == "files_idempotence":
         from harness.props import c05
         r = c05.files_idempotence(ctx, replay=w)
+        return r["violations"][0]["what"] if r["violations"] else None
+    if w.get("replay_fn") == "side_effects":
+        from harness import c08_effects
+        r = c08_effects.side_effect_cases(ctx, replay=w)
         return r["violations"][0]["what"] if r["violations"] else None
     if w.get("replay_fn") == "files":
         from harness import c08_files
